@@ -75,7 +75,8 @@ package snapshot
 //@   results n, err
 //@   ensures 0 <= n && n <= len(p) && n <= blen(old(r.rest))
 //@   ensures bytesOf(p[:n]) == bsub(old(r.rest), 0, n) && r.rest == bsub(old(r.rest), n, blen(old(r.rest)) - n)
-//@   modifies r.rest, elems(p)
+//@   ensures (err == io.EOF ==> !r.busy) && (err != io.EOF ==> r.busy == old(r.busy))      // typestate used by the snappy gRPC compressor (C18.pool)
+//@   modifies r.rest, r.busy, elems(p)
 
 // ---------------------------------------------------------------- chunk transport (C18)
 
@@ -124,3 +125,34 @@ package snapshot
 //@   loop 0 invariant chunk != nil && fresh(chunk) && w.nmsg - old(w.nmsg) == s.Stream.nrecv - old(s.Stream.nrecv) && w.nmsg >= old(w.nmsg)
 //@   loop 0 invariant forall j Int :: old(w.nmsg) <= j && j < w.nmsg ==> w.msg[j] == s.Stream.rdata[j - old(w.nmsg) + old(s.Stream.nrecv)]
 //@   loop 0 invariant forall k Int :: s.Stream.rdata[k] == old(s.Stream.rdata[k])
+
+// sending side: message k carries sdataAt[k] with its length
+//@ ghostfield any.nsent Int
+//@ ghostfield any.sdataAt map[Int]Bytes
+//@ ghostfield any.slenAt map[Int]Int
+//@ iface regattapb.Snapshot_StreamServer.Send
+//@   assumed
+//@   params st, c
+//@   results err
+//@   requires c != nil
+//@   ensures err == nil ==> st.nsent == old(st.nsent) + 1 && st.sdataAt[old(st.nsent)] == old(bytesOf(c.Data)) && st.slenAt[old(st.nsent)] == c.Len
+//@   ensures err != nil ==> st.nsent == old(st.nsent)
+//@   ensures forall k Int :: k != old(st.nsent) || err != nil ==> st.sdataAt[k] == old(st.sdataAt[k]) && st.slenAt[k] == old(st.slenAt[k])
+//@   modifies st.nsent, st.sdataAt, st.slenAt
+
+// Writer.Write: exactly one chunk carrying exactly p and its length
+//@ func (*Writer).Write
+//@   params g, p
+//@   results n, err
+//@   requires g != nil && g.Sender != nil
+//@   ensures [C18.chunk.send] err == nil ==> n == len(p) && g.Sender.nsent == old(g.Sender.nsent) + 1 && g.Sender.sdataAt[old(g.Sender.nsent)] == old(bytesOf(p)) && g.Sender.slenAt[old(g.Sender.nsent)] == len(p)
+//@   ensures [C18.chunk.fail] err != nil ==> n == 0 && g.Sender.nsent == old(g.Sender.nsent)
+//@   modifies g.Sender.nsent, g.Sender.sdataAt, g.Sender.slenAt
+
+// Reader.Read: one received chunk is copied into p completely, or refused when p is too short
+//@ func (Reader).Read
+//@   params s, p
+//@   results n, err
+//@   requires s.Stream != nil
+//@   ensures [C18.chunk.recv] err == nil ==> s.Stream.nrecv == old(s.Stream.nrecv) + 1 && n == blen(s.Stream.rdata[old(s.Stream.nrecv)]) && n <= len(p) && bytesOf(p[:n]) == s.Stream.rdata[old(s.Stream.nrecv)]
+//@   modifies s.Stream.nrecv, elems(p), allelems(uint8)
